@@ -68,26 +68,42 @@ def scenario(w):
     w.log('call', **{k: v for k, v in w.sample.items() if k not in ('pool',)})
 
     kw = dict(nensembles=nens, nprocesses=nproc, noise_mode=mode, ensemble_noise=level, max_imfs=max_imfs)
-    out, exc = None, None
-    try:
-        out = getattr(S, variant)(x.copy(), **kw)
-    except W.InjectedFault:
-        raise
-    except Exception as e:   # judged below
-        C.reraise_if_harness(e)
-        exc = e
+    # state carried from one ensemble call to the next in the same process must not matter: in a quarter of the
+    # runs the same call is made twice and each call is judged on its own
+    ncalls = 2 if ch.flag('second_call', 1, 4) else 1
+    w.sample['calls'] = ncalls
+    for ci in range(ncalls):
+        t0, b0 = len(w.stage_trace), len(w.batches)
+        out, exc = None, None
+        try:
+            out = getattr(S, variant)(x.copy(), **kw)
+        except W.InjectedFault:
+            raise
+        except Exception as e:   # judged below
+            C.reraise_if_harness(e)
+            exc = e
+        nv = len(w.violations)
+        _judge(w, emd, S, variant, x, kw, cfg, out, exc, t0, b0, ci)
+        if len(w.violations) != nv:
+            return
 
+
+def _judge(w, emd, S, variant, x, kw, cfg, out, exc, t0, b0, ci):
+    nens, nproc, mode, level, max_imfs = kw['nensembles'], kw['nprocesses'], kw['noise_mode'], kw['ensemble_noise'], kw['max_imfs']
+    trace = w.stage_trace[t0:]
+    batches = w.batches[b0:]
     X = x[:, None]
-    member_batches = [b for b in w.batches if getattr(b['func'], '__name__', '') != 'sift']
+    member_batches = [b for b in batches if getattr(b['func'], '__name__', '') != 'sift']
     sig_parts = []
     for b in member_batches:
         sig_parts.append(C.partition_signature(b))
-    w.sample['schedule'] = [{'batch': b['id'], 'func': getattr(b['func'], '__name__', '?'),
+    w.sample['schedule' if ci == 0 else 'schedule_call2'] = [{'batch': b['id'], 'func': getattr(b['func'], '__name__', '?'),
                              'assign': b['assign'], 'completion_order': b['order'],
-                             'respawn_before_chunks': b['respawns']} for b in w.batches]
+                             'respawn_before_chunks': b['respawns']} for b in batches]
     nworkers_used = max([len(set(p)) for p in sig_parts] or [0])
-    w.cov = (variant, cfg['start'], mode, tuple(sig_parts[:4]), tuple(tuple(b['respawns']) for b in member_batches[:4]))
-    w.nontrivial = nworkers_used >= 2 and level > 0 and nens >= 2
+    if ci == 0:
+        w.cov = (variant, cfg['start'], mode, tuple(sig_parts[:4]), tuple(tuple(b['respawns']) for b in member_batches[:4]))
+        w.nontrivial = nworkers_used >= 2 and level > 0 and nens >= 2
     if nworkers_used >= 2:
         w.probe('two_or_more_workers_used')
     if cfg['start'] == 'fork' and nworkers_used >= 2:
@@ -97,16 +113,17 @@ def scenario(w):
     # A member is one _sift_with_noise call made underneath the top-level call, in whatever process and
     # however the implementation packs members into pool jobs; members are grouped per pool batch (one
     # batch per IMF for the complete ensemble).  Fallback when no such call is seen: one member per job.
-    top = [r for r in w.stage_trace if r['parent'] is None and r['stage'] == variant]
-    swn_recs = [r for r in w.stage_trace if r['stage'] == '_sift_with_noise']
+    top = [r for r in trace if r['parent'] is None and r['stage'] == variant]
+    swn_recs = [r for r in trace if r['stage'] == '_sift_with_noise']
     kids = {}
-    for r in w.stage_trace:
+    for r in trace:
         if r['parent'] is not None:
             kids.setdefault(r['parent'], []).append(r)
     members = []   # per member batch: list of dict(inputs=[...], outs=[...], result, ...)
+    member_gids = []
     ragged = False
     worker_of = {}
-    for b in w.batches:
+    for b in batches:
         for ti, rec in enumerate(b['tasks']):
             if rec is not None:
                 worker_of[(b['id'], ti)] = rec['worker']
@@ -115,6 +132,7 @@ def scenario(w):
         for r in swn_recs:
             groups.setdefault(r['task'][0] if r['task'] is not None else -1, []).append(r)
         for gid in sorted(groups):
+            member_gids.append(gid)
             ms = []
             for r in groups[gid]:
                 inner = [k for k in kids.get(r['id'], []) if k['stage'] == 'sift']
@@ -219,6 +237,41 @@ def scenario(w):
                     w.violation('correlated-noise', variant,
                                 '%s batch %d: noise of members %s has |cross-correlation| %.3f (independent draws of '
                                 'this length stay below %.1f)' % (variant, bi, worst[1], worst[0], CORR_LIMIT))
+
+    # ---- 5. complete ensemble: every member keeps its own noise column from IMF to IMF -----------------------
+    if variant == 'complete_ensemble_sift' and level > 0 and len(member_gids) == len(members) and len(members) > 1:
+        nsift = {}
+        for r in trace:
+            if r['stage'] == 'sift' and r['task'] is not None and 'out' in r and \
+                    (r['parent'] is None or w.stage_trace[r['parent']]['stage'] == variant):
+                nsift.setdefault(r['task'][0], []).append(r)
+        for k in range(1, len(members)):
+            prev = [g for g in sorted(nsift) if g < member_gids[k]]
+            if not prev:
+                continue
+            src = nsift[prev[-1]]
+            ms = members[k]
+            if len(src) != len(ms) or any(not m['inputs'] or m['Xarg'] is None for m in ms):
+                continue
+            expect = [np.ravel(r['x']) - np.ravel(r['out'][:, 0]) for r in src]
+            scale = max(1.0, max(float(np.max(np.abs(e))) for e in expect))
+            free = list(range(len(expect)))
+            for m in ms:
+                obs = np.ravel(m['inputs'][0]) - np.ravel(m['Xarg'])
+                hit = None
+                for j in free:
+                    if expect[j].shape == obs.shape and float(np.max(np.abs(expect[j] - obs))) <= 1e-10 * scale:
+                        hit = j
+                        break
+                if hit is None:
+                    w.violation('ceemd-noise-chain', variant,
+                                'complete_ensemble_sift IMF %d: member %d was not given its own noise column (the residue of a '
+                                'column that no other member received after removing that column\'s first IMF)' % (k, m['index']))
+                    break
+                free.remove(hit)
+            w.probe('ceemd_noise_chain_checked')
+            if w.violations:
+                return
 
     # ---- 2. flip mode ------------------------------------------------------------------------
     for bi, ms in enumerate(members):
